@@ -212,7 +212,16 @@ def run_check(prop, tier, replay=None):
             if rc is None:
                 infra.append("shard %d exceeded the hard time limit of %ds" % (sh, hard))
             if res is None:
-                if rc is not None:
+                if rc is not None and REPO_PANIC.search(text) and "go-storethehash" in text:
+                    # The process died (runtime fatal error or a panic on one of
+                    # the store's own goroutines) before it could write a result.
+                    rp = os.path.join(REPLAYS, prop, "crash-%s-s%d-%d.txt" % (tier, seed, sh))
+                    os.makedirs(os.path.dirname(rp), exist_ok=True)
+                    open(rp, "w").write(text[-30000:])
+                    m = re.search(r"^(panic:|fatal error:)[^\n]*", text, re.M)
+                    results.append(dict(evaluations=0, violations=[dict(property=prop, signature="process-died|" + (m.group(0)[:80] if m else "?"),
+                                        detail="the test process died inside module code: " + (m.group(0) if m else ""), replay=rp)]))
+                elif rc is not None:
                     infra.append("shard %d exited with %s without a result file" % (sh, rc))
                 continue
             results.append(res)
